@@ -272,6 +272,10 @@ def hyp_search(prop, strategy, max_examples, seed, max_shrinks_s=120):
     return None
 
 
+class Skip(Exception):
+    """The harness could not construct the case in this sandbox: counted, never judged."""
+
+
 class Failure(Exception):
     def __init__(self, what, observed=None, expected=None, key=None):
         super().__init__(what)
